@@ -79,6 +79,23 @@ func c03Case(c *core.Ctx) *core.Result {
 		s.Weights["AddTable"] = 8
 	}
 	s.Run(r.Range(4, tierN(c.Tier, 40, 100)), nil)
+	if c.Case%400 == 7 && s.Panic == nil {
+		// a large and very regular body (a main part of 1-3 MB that compresses at several hundred to one): thousands of
+		// identical paragraphs, or a long table of identical cells
+		if r.Bool() {
+			for i, n := 0, r.Range(13000, 16000); i < n; i++ {
+				s.Doc.AddParagraph("n/a")
+			}
+			res.Count("large_regular_bodies(paragraphs)", 1)
+		} else if t, err := s.Doc.AddTable(&document.TableConfig{Rows: r.Range(330, 400), Cols: 20, Width: 9000}); err == nil && t != nil {
+			for i := 0; i < t.GetRowCount(); i++ {
+				for j := 0; j < 20; j++ {
+					t.SetCellText(i, j, "n/a")
+				}
+			}
+			res.Count("large_regular_bodies(table)", 1)
+		}
+	}
 	if s.Panic != nil {
 		res.Count("api_panics(document quarantined)", 1)
 		return res
